@@ -158,6 +158,21 @@ func bindVia(entry string, req *http.Request, got *Payload) (err error, pv any) 
 	default:
 		r := rux.New()
 		h := func(c *rux.Context) {
+			// the handler looked at the query before (a logger, a pager) and keeps / edits what it was handed:
+			// the values a getter returns belong to the caller
+			qv := c.QueryValues()
+			for k, vs := range qv {
+				for i := range vs {
+					vs[i] = "edited-by-the-handler"
+				}
+				qv[k] = append(vs, "added-by-the-handler")
+			}
+			qv["q_name"] = []string{"replaced-by-the-handler"}
+			if vs, ok := c.QueryParams("q_tags"); ok {
+				for i := range vs {
+					vs[i] = "edited-by-the-handler"
+				}
+			}
 			switch entry {
 			case "Context.Bind":
 				err = c.Bind(got)
